@@ -52,23 +52,15 @@ impl RunCtx {
 
     /// Writes evidence and replay files, prints the verdict lines, returns the process exit code.
     pub fn finish(&self) -> i32 {
-        let known = load_known(&format!("{}/known_findings.json", self.root));
+        let known = &self.rec.known;
         let mut list: Vec<Violation> = self.rec.list.lock().unwrap().clone();
         list.sort_by(|a, b| a.sort_key().cmp(&b.sort_key()));
         list.dedup_by(|a, b| a.ev == b.ev && a.input == b.input && a.at_enc == b.at_enc && a.kind == b.kind);
+        let unknown: Vec<&Violation> = list.iter().collect();
         let mut known_hits: Vec<(String, String, u64)> = Vec::new();
-        let mut unknown: Vec<&Violation> = Vec::new();
-        for v in &list {
-            match match_known(&known, &self.prop, v) {
-                Some(k) => {
-                    if let Some(e) = known_hits.iter_mut().find(|e| e.0 == k.id) {
-                        e.2 += 1;
-                    } else {
-                        known_hits.push((k.id.clone(), k.what.clone(), 1));
-                    }
-                }
-                None => unknown.push(v),
-            }
+        for (id, (n, example)) in self.rec.known_hits.lock().unwrap().iter() {
+            let what = known.iter().find(|k| &k.id == id).map(|k| k.what.clone()).unwrap_or_default();
+            known_hits.push((id.clone(), format!("{} (first instance: {})", what, example), *n));
         }
         for (id, what, n) in &known_hits {
             println!(
